@@ -478,9 +478,13 @@ def laplacian_composition(chk):
         eng_.generic_indices = [j0]
         try:
             res = eng_.call(eng_.get_function(MODP, "interpolate_laplacian"), [mg, fv])
+            # the caller reuses its array afterwards (overwrites it in place): the returned callable answers for the values it was given
+            F_LATER = z3.Function("f_value_written_later", IS, RS)
+            fv.fn = lambda j: F_LATER(T.zi(j))
+            later = fv.fn
             ev = I.Arr((NE, 3), lambda j, c: EP(T.zi(j), T.zi(c)), "real")
             out = eng_.call(res, [ev, CUT])
-            return dict(out=out, rec={k: list(v) for k, v in rec.items()}, ev=ev, untouched=fv.fn is before)
+            return dict(out=out, rec={k: list(v) for k, v in rec.items()}, ev=ev, untouched=fv.fn is later)
         finally:
             for k in ("grid.atomgrid.AtomGrid.l_max", "grid.atomgrid.AtomGrid.radial_component_splines", "grid.atomgrid.AtomGrid.convert_cartesian_to_spherical",
                       "grid.utils.generate_real_spherical_harmonics"):
